@@ -441,11 +441,13 @@ fn run_shape(tpls: &[TplS], orders: &[Vec<usize>]) -> Outcome {
         let Some(fresh) = fresh else {
             return Some(format!("a fresh instance rejects the set after {what}: {fresh_imp}"));
         };
-        if real_derived(tera) != real_derived(&fresh) {
+        let (dh, df) = (real_derived(tera), real_derived(&fresh));
+        if dh != df {
+            // the first template whose derived data differs, in full
+            let first = dh.tpls.iter().find(|(n, t)| df.tpls.get(*n) != Some(*t)).map(|(n, t)| format!("`{n}`: history {t:?} vs fresh {:?}", df.tpls.get(n)));
             return Some(format!(
-                "after {what} the derived data differs from a fresh instance given the same set: history {:?} vs fresh {:?}",
-                real_derived(tera).tpls.iter().map(|(n, t)| (n.clone(), t.parents.clone(), t.lineage_ids.clone())).collect::<Vec<_>>(),
-                real_derived(&fresh).tpls.iter().map(|(n, t)| (n.clone(), t.parents.clone(), t.lineage_ids.clone())).collect::<Vec<_>>()
+                "after {what} the derived data differs from a fresh instance given the same set: {}",
+                first.unwrap_or_else(|| format!("templates {:?} vs {:?}, components {:?} vs {:?}", dh.tpls.keys().collect::<Vec<_>>(), df.tpls.keys().collect::<Vec<_>>(), dh.comps, df.comps))
             ));
         }
         for t in cur {
